@@ -1,0 +1,173 @@
+//go:build verif
+// +build verif
+
+package runtime
+
+import "fmt"
+
+// VerifTableShape describes the current layout of a table (verification only).
+type VerifTableShape struct {
+	ArraySize, ArrayLen int
+	HashSize, HashLive  int
+	HashTombstones      int // keys kept with a nil value
+	Chained             int // live items not in their primary slot
+	NextFree            int
+}
+
+// VerifShape returns the layout of the table.
+func (t *Table) VerifShape() (s VerifTableShape) {
+	if t.array != nil {
+		s.ArraySize = len(t.array.values)
+		s.ArrayLen = int(t.array.len)
+	}
+	if t.hashTable != nil {
+		s.HashSize = len(t.hashTable.slots)
+		s.NextFree = int(t.hashTable.nextFree)
+		for _, it := range t.hashTable.slots {
+			switch {
+			case it.isEmpty():
+			case it.value.IsNil():
+				s.HashTombstones++
+			default:
+				s.HashLive++
+			}
+			if !it.isEmpty() && it.isChained() {
+				s.Chained++
+			}
+		}
+	}
+	return
+}
+
+// VerifCheckInvariants walks the private representation of the table and
+// returns an error describing the first structural invariant found broken.  It
+// does not modify the table.
+func (t *Table) VerifCheckInvariants() error {
+	mt := t.mixedTable
+	if mt == nil {
+		return fmt.Errorf("nil mixedTable")
+	}
+	// Array part
+	if a := mt.array; a != nil {
+		if int(a.len) > len(a.values) {
+			return fmt.Errorf("array len %d > size %d", a.len, len(a.values))
+		}
+		if a.len > 0 && a.values[a.len-1].IsNil() {
+			return fmt.Errorf("array len %d but values[len-1] is nil", a.len)
+		}
+		for i := int(a.len); i < len(a.values); i++ {
+			if !a.values[i].IsNil() {
+				return fmt.Errorf("array has non-nil value at index %d beyond len %d", i+1, a.len)
+			}
+		}
+	}
+	h := mt.hashTable
+	if h == nil {
+		return nil
+	}
+	n := uintptr(len(h.slots))
+	if n != 1<<h.base {
+		return fmt.Errorf("hash size %d != 1<<base (%d)", n, h.base)
+	}
+	mask := n - 1
+	if h.nextFree != noNextFree {
+		if h.nextFree >= n {
+			return fmt.Errorf("nextFree %d out of range (size %d)", h.nextFree, n)
+		}
+		if !h.slots[h.nextFree].isEmpty() {
+			return fmt.Errorf("nextFree %d is not a free slot", h.nextFree)
+		}
+		// every slot above nextFree must be occupied
+		for i := h.nextFree + 1; i < n; i++ {
+			if h.slots[i].isEmpty() {
+				return fmt.Errorf("slot %d above nextFree %d is free", i, h.nextFree)
+			}
+		}
+	} else {
+		for i := uintptr(0); i < n; i++ {
+			if h.slots[i].isEmpty() {
+				return fmt.Errorf("table marked full but slot %d is free", i)
+			}
+		}
+	}
+	for i := uintptr(0); i < n; i++ {
+		it := h.slots[i]
+		if it.isEmpty() {
+			if !it.value.IsNil() {
+				return fmt.Errorf("slot %d has nil key but non-nil value", i)
+			}
+			continue
+		}
+		// key normalisation: no float key with an integer value, no NaN
+		if f, ok := it.key.TryFloat(); ok {
+			if f != f {
+				return fmt.Errorf("slot %d has NaN key", i)
+			}
+			if _, isInt := ToIntNoString(it.key); isInt {
+				return fmt.Errorf("slot %d has float key %v that should be an integer key", i, f)
+			}
+		}
+		// a live integer key that fits the array part must not live here
+		if k, ok := it.key.TryInt(); ok && !it.value.IsNil() {
+			if mt.array != nil && k >= 1 && k <= int64(len(mt.array.values)) {
+				return fmt.Errorf("slot %d holds live integer key %d which belongs to the array part (size %d)", i, k, len(mt.array.values))
+			}
+		}
+		// every key must be found where it is
+		fit, fi := findSlot(h.slots, mask, it.key)
+		if fit == nil {
+			return fmt.Errorf("key in slot %d (%v) is not found by findSlot", i, it.key.Interface())
+		}
+		if fi != i {
+			return fmt.Errorf("key in slot %d (%v) is found in slot %d: duplicate key", i, it.key.Interface(), fi)
+		}
+	}
+	if mask < smallHashTableSize {
+		return nil
+	}
+	// Chain invariants (only meaningful for hashed tables)
+	seen := make([]bool, n)
+	for i := uintptr(0); i < n; i++ {
+		it := h.slots[i]
+		if it.isEmpty() || it.isChained() {
+			continue
+		}
+		// i is a chain head: it must be in its primary slot (I3)
+		if p := it.key.Hash() & mask; p != i {
+			return fmt.Errorf("I3: chain head in slot %d has primary slot %d", i, p)
+		}
+		j, steps := i, uintptr(0)
+		for {
+			if seen[j] {
+				return fmt.Errorf("I1: slot %d reached twice", j)
+			}
+			seen[j] = true
+			cur := h.slots[j]
+			if cur.isEmpty() {
+				return fmt.Errorf("chain from %d reaches free slot %d", i, j)
+			}
+			if p := cur.key.Hash() & mask; p != i {
+				return fmt.Errorf("I2: slot %d in chain of %d has primary slot %d", j, i, p)
+			}
+			if j != i && !cur.isChained() {
+				return fmt.Errorf("slot %d is in chain of %d but not flagged chained", j, i)
+			}
+			if !cur.hasNext() {
+				break
+			}
+			j = cur.nextIndex()
+			if j >= n {
+				return fmt.Errorf("next index %d out of range", j)
+			}
+			if steps++; steps > n {
+				return fmt.Errorf("I1: chain from %d does not end", i)
+			}
+		}
+	}
+	for i := uintptr(0); i < n; i++ {
+		if !h.slots[i].isEmpty() && !seen[i] {
+			return fmt.Errorf("slot %d is occupied but belongs to no chain", i)
+		}
+	}
+	return nil
+}
